@@ -241,7 +241,7 @@ impl Prop for C09 {
         "C09"
     }
     fn rule(&self) -> String {
-        "histories: a generated workspace (see C05; failing series included) and a way of cutting the push to goal g into 1-5 consecutive invocations, each written as push / push N / push <name> / push -a with its own thread count, backup setting, loader and verbosity; compared with ONE invocation to g on a fresh copy. Oracle (metamorphic): identical user tree (bytes+modes, rejects included) and .pc/applied-patches; an extra push when everything requested is applied leaves the complete snapshot (bytes, modes, inodes, mtimes) unchanged and exits 0; an extra push after a failed push exits 1 again and leaves the same tree, rejects and applied-patches. non-trivial = >=2 invocations that each apply >=1 patch where a later one touches a file an earlier one wrote, created or deleted; distinct = distinct case".into()
+        "histories: a generated workspace (see C05; failing series included) and a way of cutting the push to goal g into 1-5 consecutive invocations, each written as push / push N / push <name> / push -a with its own thread count, backup setting, loader and verbosity; compared with ONE invocation to g on a fresh copy. Oracle (metamorphic): identical user tree (bytes+modes, rejects included, and the set of directories) and .pc/applied-patches; an extra push when everything requested is applied leaves the complete snapshot (bytes, modes, inodes, mtimes) unchanged and exits 0; an extra push after a failed push exits 1 again and leaves the same tree, rejects and applied-patches. non-trivial = >=2 invocations that each apply >=1 patch where a later one touches a file an earlier one wrote, created or deleted; distinct = distinct case".into()
     }
     fn assumptions(&self) -> Vec<String> {
         vec!["backup directories are not compared between differently split runs (they legitimately depend on the split)".into()]
@@ -451,7 +451,7 @@ impl Prop for C10 {
         "C10"
     }
     fn rule(&self) -> String {
-        "generated workspaces (see C05; failing series in 4 of 8 cases; optionally with prior applied state and existing .pc backups) run with --dry-run under all thread counts, backup settings, loaders, verbosities and goals. Oracle: the recursive snapshot of the working directory (path, kind, bytes, mode, inode, link count, mtime - all mtimes pinned to a past instant beforehand) is identical before and after; exit status and the patch named in 'Patch <name> FAILED' equal those of a real run of the same invocation on a copy. non-trivial = the real run writes something (modified files, and for failing series rejects/backups); distinct = distinct case".into()
+        "generated workspaces (see C05; failing series in 4 of 8 cases; optionally with prior applied state, stale .pc/<patch>/ directories of patches that are not applied and dangling symbolic links where a patch is going to create a file) run with --dry-run under all thread counts, backup settings, loaders, verbosities and goals. Oracle: the recursive snapshot of the working directory (path, kind, bytes, mode, inode, link count, mtime - all mtimes pinned to a past instant beforehand) is identical before and after; exit status and the patch named in 'Patch <name> FAILED' equal those of a real run of the same invocation on a copy. non-trivial = the real run writes something (modified files, and for failing series rejects/backups); distinct = distinct case".into()
     }
     fn assumptions(&self) -> Vec<String> {
         vec!["observation by snapshot (bytes, mode, inode, nlink, mtime of files and directories), not by syscall tracing: a write that restores all of these on the same inode would be invisible".into()]
@@ -580,7 +580,7 @@ impl Prop for C14 {
         "C14"
     }
     fn rule(&self) -> String {
-        "generated workspaces (see C05) incl. zero-length source files, zero-length patch files and failing series, optionally with prior applied state and goal forms (-a, N, <name> incl. names that are already applied), each run once with `-q` and the default loader and then with 3 (thorough 6) option sets drawn from {--mmap, (default verbosity), -v, -vv, --color always, --stats, -A multiapply and combinations}. Oracle (differential): user tree (bytes+modes), .pc/**, rejects and exit status identical to the base run. non-trivial = the variant differs from the base in loader or verbosity class and the workspace has a failing patch or a zero-length file; distinct = distinct case".into()
+        "generated workspaces (see C05) incl. zero-length source files, zero-length patch files, failing series and series with an unloadable patch behind the failing one, optionally with prior applied state and goal forms (-a, N, <name> incl. names that are already applied), each run once with `-q` and the default loader and then with 3 (thorough 6) option sets drawn from {--mmap, (default verbosity), -v, -vv, --color always, --stats, -A multiapply and combinations}. Oracle (differential): user tree (bytes+modes), .pc/**, rejects and exit status identical to the base run. non-trivial = the variant differs from the base in loader or verbosity class and the workspace has a failing patch or a zero-length file; distinct = distinct case".into()
     }
     fn assumptions(&self) -> Vec<String> {
         vec!["stdout/stderr are not compared (the options are allowed to change what is printed)".into()]
